@@ -6,16 +6,39 @@ ORACLE_NOTE = (
     "establishes absence - the evidence file says how many cases, how many non-trivial, which sub-domains were exhaustive"
 )
 
+PBT = "property-based testing (Hypothesis @given, collect-bucket-shrink)"
+
 TABLE = [
-    (
-        "C20",
-        "exploration",
-        "property-based testing (Hypothesis @given) + exhaustive enumeration of widths 0/1/2 against an int.to_bytes oracle",
-        "every (width,value) pair for widths 0,1,2 enumerated; widths 4/8 sampled boundary-weighted over the full range; "
-        "equality/hash iff-relation on generated pairs; refusals; assignment sequences; conversion helpers vs two's-complement",
-        ORACLE_NOTE,
-        "DESIGN.md section 4 C20",
-    ),
+    ("C01", "exploration",
+     PBT + " + exhaustive per-word sweeps against a reference header codec",
+     "each 16-bit header word enumerated completely (3 x 65536) in both directions, boundary-weighted random 48-bit headers, "
+     "id/psc word conversions, SpacePacket.pack, out-of-range refusals; the 2^48 product itself is sampled, not enumerated",
+     ORACLE_NOTE, "DESIGN.md section 4 C01"),
+    ("C02", "exploration",
+     PBT + " against a reference PUS-C TC encoder; crafted-input generator for the rejection clause",
+     "generated field tuples and application data up to the 65529-octet limit compared octet-for-octet with an independent encoder, "
+     "round trip / equality / re-pack / space-packet view; declared lengths 7..12 with CRC patched over the declared extent must be refused",
+     ORACLE_NOTE, "DESIGN.md section 4 C02"),
+    ("C03", "exploration",
+     PBT + " against a reference PUS-C TM encoder over generated timestamp lengths (decoder configuration)",
+     "as C02 for telemetry with timestamp lengths 0..32, packet version, destination id, time reference; service-17 wrapper; "
+     "declared lengths below 6+7+ts+2 with patched CRC must be refused",
+     ORACLE_NOTE, "DESIGN.md section 4 C03"),
+    ("C05", "exploration",
+     PBT + " + exhaustive flag x width grid and all (octet0, octet3) pairs against a reference header codec",
+     "all 2048 header configurations packed/unpacked with boundary-weighted values, every strict prefix refused, all 2^16 flag/width octet "
+     "pairs through the decoder, refusals of mismatching id widths / oversize length / version / width codes",
+     ORACLE_NOTE, "DESIGN.md section 4 C05"),
+    ("C06", "exploration",
+     PBT + " per directive against reference directive encoders written from 727.0-B-5",
+     "seven directives x generated parameter sets x header configurations (CRC, large file, 16 width pairs): octets == reference, data-field "
+     "length, decode to same class / identical observed fields / == / identical re-pack; over-width sizes must fail to pack",
+     ORACLE_NOTE, "DESIGN.md section 4 C06"),
+    ("C20", "exploration",
+     PBT + " + exhaustive enumeration of widths 0/1/2 against an int.to_bytes oracle",
+     "every (width,value) pair for widths 0,1,2 enumerated; widths 4/8 sampled boundary-weighted over the full range; "
+     "equality/hash iff-relation on generated pairs; refusals; assignment sequences; conversion helpers vs two's-complement",
+     ORACLE_NOTE, "DESIGN.md section 4 C20"),
 ]
 
 _PENDING = "check not implemented yet in this round (planned in DESIGN.md section 4); will be claimed once its check exists"
